@@ -464,6 +464,13 @@ func TestC08(t *testing.T) {
 			st.sample(c)
 		})
 	})
+	t.Run("histories", func(t *testing.T) {
+		// every ledger operation of a generated history must return (no panic, no hang), whatever state the
+		// ledger was driven into (all tips dropped, odd weights, duplicates, concurrent batches)
+		runLedgerCases(t, st, "C08", lmRule{nontrivial: func(m *lm) bool {
+			return m.labels["c01:tip-dropped"] > 0 || m.labels["op:concurrent-batch"] > 0
+		}})
+	})
 	if incon > 0 && st.Evaluations > 0 && float64(incon)/float64(st.Evaluations) > 0.05 {
 		st.inconclusive(fmt.Sprintf("%d of %d cases were inconclusive", incon, st.Evaluations))
 	}
